@@ -49,6 +49,10 @@ pub struct Case {
     pub verify_inputs: Vec<String>,
     pub verify_recursive: bool,
     pub change: Change,
+    /// completion order of the verify run: None = real concurrency, Some = the controller picks
+    /// which gated task completes next (choices mapped monotonically)
+    #[serde(default)]
+    pub verify_schedule: Option<Vec<u16>>,
 }
 
 fn gen_case(c: &mut Choices) -> Case {
@@ -104,7 +108,8 @@ fn gen_case(c: &mut Choices) -> Case {
         2 => Change::OptionMismatch,
         _ => Change::SourceEdit { which: c.raw(), edit: c.below(6) as u8 },
     };
-    Case { project, build, verify_inputs, verify_recursive, change }
+    let verify_schedule = if c.chance(1, 2) { Some((0..c.below(12)).map(|_| c.raw()).collect()) } else { None };
+    Case { project, build, verify_inputs, verify_recursive, change, verify_schedule }
 }
 
 pub fn tamper(b: &[u8], op: &Op, pos: u16) -> Option<Vec<u8>> {
@@ -296,7 +301,22 @@ pub fn check(case: &Case, st: &mut Stats) -> Check {
     // verify, with sentinel mtimes so that a rewrite with identical bytes is visible
     fsx::stamp(&su.sc.root);
     let snap_before = fsx::snapshot(&su.sc.root);
-    let ver = runner::run_free(&su.sc.root, &vopts);
+    let ver = match &case.verify_schedule {
+        None => runner::run_free(&su.sc.root, &vopts),
+        Some(s) => {
+            // a pool large enough for every task: the controller alone decides the order
+            let mut o = vopts.clone();
+            o.threads = 2 * case.project.sources().len() + 4;
+            let ctl = crate::ctl::Ctl::controlled(o.threads, Box::new(crate::ctl::StreamChooser { data: s.clone(), pos: 0, taken: vec![] }));
+            let r = runner::run(&su.sc.root, &o, std::sync::Arc::new(ctl));
+            if let Some(i) = &r.report.infra {
+                st.infra.push(i.clone());
+                return Ok(());
+            }
+            st.class("verify_under_controlled_schedule");
+            r
+        }
+    };
     let snap_after = fsx::snapshot(&su.sc.root);
     st.class(&label);
     st.class(if expect_ok { "expect_verify_ok" } else { "expect_verify_err" });
